@@ -815,6 +815,15 @@ class Crate:
             raise AnchorMissing("%s::%s" % (self_ty_contains, name), "expected exactly one body, found %d" % len(m))
         return m[0]
 
+    def adt_named(self, path):
+        """the ADT with this path — or, when it was moved to another module of the crate, the only ADT with that name"""
+        a = self.adts.get(path)
+        if a is not None:
+            return a
+        last = path.split("::")[-1]
+        cands = [v for k, v in self.adts.items() if k.split("::")[-1] == last and not k.startswith("std::") and not k.startswith("core::")]
+        return cands[0] if len(cands) == 1 else None
+
     def free_fn(self, name, path_contains=None):
         out = [b for b in self.by_name.get(name, []) if (b.kind == "Fn" or self.aliases.get(b.id) == name) and b.kind != "Closure" and (path_contains is None or path_contains in b.id or self.aliases.get(b.id) == name)]
         return out
